@@ -61,6 +61,17 @@ def rules(P, R, prefix="C07"):
                         n["sp"], kt, "helper reads key `%s`, not the requested digest" % kt)
             R.judge(len(sends) == 1, prefix + ".Y1", key(hr, "exactly one reply per request" + tag), hr.sp, str(len(sends)),
                     "helper has %d network sends" % len(sends))
+            # the reply is sent for EVERY stored block that decodes: no extra condition (size caps, allow-lists ..)
+            wl = next((n for n in hr.nodes() if n["k"] == "while"), None)
+            if sends and reads and wl is not None:
+                from ..common import inner_cond
+                from ..analysis import atoms_of as _atoms
+                ic = inner_cond(env.flow(hr), sends[0], wl["body"])
+                G = ctx.term(reads[0])
+                allowed = ("some(%s" % G[:20], "ok(")
+                extra = [a for a in _atoms(ic) if not a.startswith(("ok(", "some("))]
+                R.judge(not extra, prefix + ".Y1", key(hr, "every stored block that is requested is sent" + tag), sends[0]["sp"], show(ic),
+                        "the helper replies only under `%s`: some stored blocks are never served to a lagging peer" % show(ic))
             for i, n in enumerate(sends):
                 addr = ctx.term(n["args"][0])
                 data = ctx.term(n["args"][1])
